@@ -15,17 +15,24 @@ nesting and sequence of `with start_action(..)` / `with start_task(..)` / `with 
 blocks (typed or untyped), `log_message` / `MessageType.log`, `add_success_fields`, `raise` of any
 application exception, `try/except` whose handler may call `write_traceback()`, probes — started
 outside any action, after `add_destinations(*ds)`.  Every environment `env` such that (`EnvOK`)
-field serializers are functions that do not raise (`σ`), no exception extractor is registered, and
-the registered destinations never raise (a raising destination adds `eliot:destination_failure`
-messages to the current action: C08).  `wf` = no declared (typed) field is missing when its
+field serializers are functions that do not raise (`σ`), registered exception extractors — for any
+classes, returning any fields, possibly different ones on every call — do not raise (one that raises
+adds an `eliot:traceback` message of its own: C07), and the registered destinations never raise (a
+raising destination adds `eliot:destination_failure` messages to the current action: C08).  The end
+message of a failed action, and the message of `write_traceback()`, carry the fields returned by the
+extractor of the nearest class in the exception's MRO (`extOf`, `extracted_fields`) under eliot's own
+`exception` / `reason` / `action_status` (resp. `reason` / `traceback` / `exception`), which win on a
+key clash (`field_values`).  `wf` = no declared (typed) field is missing when its
 serializer runs; `clean` = no typed field is declared under one of the five keys the parser reads
-and no plain message has a field called `action_type`/`action_status`.  Explicit handles
+and no plain message has a field called `action_type`/`action_status` (for the `eliot:traceback`
+message that is a condition on what the extractor returns: `extClean`, `tb_clean`, `extOf_clean`; in a
+failed end message all five keys are written over the extracted fields, so nothing is required).  Explicit handles
 (`finish`, `x.context()`, `x.run`), `serialize_task_id`/`continue_task`, and changing
 destinations / global fields *while* the program runs are outside this fragment (C02/C04/C06 treat
 them); global fields are empty.
 
 **Denotation** (`denB`, defined without the machine): the forest `F` of `T.leaf tick ms` /
-`T.node sp st et succ res kids`, `F.sep u t` marking a tree of its own (task started / message
+`T.node sp st et succ res xf kids` (`xf` = the extracted fields of a failure), `F.sep u t` marking a tree of its own (task started / message
 logged outside the enclosing tree), carrying what was logged; payload id of a message = number of
 the clock read that stamped it = (`roundtrip`) its index in the stage.
 -/
@@ -61,14 +68,14 @@ outside any action (`T.top`: start dict, content at positions 2, 3, …, end dic
 inside emitted in place) —; the program's outcome is the denotation's; no action is current at the
 end; and every registered destination is offered, and accepts, exactly the stage. -/
 theorem emitted_is_forest {env : Env} {σ : Nat → FV → FV} {ds : List Nat} (H : EnvOK env σ ds) (hn : ds.Nodup) (p : Block)
-    (hs : p.structured false false = true) (hwf : (denB env none false p ⟨0, 0⟩ []).wf = true) :
+    (hs : p.structured false false = true) (hwf : (denB env none false p ⟨0, 0, 0⟩ []).wf = true) :
     let run := execB env none {} (.cons (.addDests ds) p)
-    let r := denB env none false p ⟨0, 0⟩ []
+    let r := denB env none false p ⟨0, 0, 0⟩ []
     run.1.stage = (F.tops r.f).flatMap (fun e => T.top env σ e.1 e.2) ∧ r.f.len = 0 ∧
     run.2 = r.out ∧ r.out ≠ .stuck ∧ run.1.ctx = none ∧
     ∀ d ∈ ds, offeredTo run.1 d = run.1.stage ∧ acceptedBy run.1 d = run.1.stage := by
   intro run r
-  have pre : PreT ds ({ anyAdded := true, dests := ds, dupAdd := hasDup ds } : World) ⟨0, 0⟩ := ⟨⟨fun _ h => h, rfl⟩, rfl, rfl, rfl⟩
+  have pre : PreT ds ({ anyAdded := true, dests := ds, dupAdd := hasDup ds } : World) ⟨0, 0, 0⟩ := ⟨⟨fun _ h => h, rfl⟩, rfl, rfl, rfl, rfl⟩
   obtain ⟨post, ho, hns⟩ := execB_top H none false (by simp) p hs _ [] _ pre hwf
   have hrun : run = execB env none ({ anyAdded := true, dests := ds, dupAdd := hasDup ds } : World) p := init_eq env ds p
   refine ⟨?_, post.flat, by rw [hrun]; exact ho, hns, by rw [hrun]; exact post.ctx, ?_⟩
@@ -147,24 +154,24 @@ pairwise distinct uuids), and feeding them to `parse_stream` in **any order** yi
 complete task per tree whose root is that whole tree: same shape, child order, action types,
 statuses, payload ids. -/
 theorem roundtrip {env : Env} {σ : Nat → FV → FV} {ds : List Nat} (H : EnvOK env σ ds) (p : Block)
-    (hs : p.structured false false = true) (hwf : (denB env none false p ⟨0, 0⟩ []).wf = true)
-    (hR : F.clean (denB env none false p ⟨0, 0⟩ []).f = true) :
+    (hs : p.structured false false = true) (hwf : (denB env none false p ⟨0, 0, 0⟩ []).wf = true)
+    (hR : F.clean (denB env none false p ⟨0, 0, 0⟩ []).f = true) :
     let stage := (execB env none {} (.cons (.addDests ds) p)).1.stage
-    let trees := specOf (denB env none false p ⟨0, 0⟩ []).f
+    let trees := specOf (denB env none false p ⟨0, 0, 0⟩ []).f
     ∃ l : List PM.PMsg, stage.map toPMsg = l.map some ∧ l.map (·.body) = List.range' 0 stage.length ∧
       trees.WF ∧ l.Perm trees.msgs ∧
       ∀ ms : List PM.PMsg, ms.Perm l → ∃ out, PM.parseStream ms = .ok out ∧ Reconstructs trees out := by
   intro stage trees
-  have pre : PreT ds ({ anyAdded := true, dests := ds, dupAdd := hasDup ds } : World) ⟨0, 0⟩ := ⟨⟨fun _ h => h, rfl⟩, rfl, rfl, rfl⟩
+  have pre : PreT ds ({ anyAdded := true, dests := ds, dupAdd := hasDup ds } : World) ⟨0, 0, 0⟩ := ⟨⟨fun _ h => h, rfl⟩, rfl, rfl, rfl, rfl⟩
   obtain ⟨post, _, _⟩ := execB_top H none false (by simp) p hs _ [] _ pre hwf
-  have hstage : stage = F.dicts env σ 0 (denB env none false p ⟨0, 0⟩ []).f [] 0 := by
+  have hstage : stage = F.dicts env σ 0 (denB env none false p ⟨0, 0, 0⟩ []).f [] 0 := by
     simp only [stage, init_eq, post.stage]; rfl
-  have rg := denB_range env none false p ⟨0, 0⟩ []
+  have rg := denB_range env none false p ⟨0, 0, 0⟩ []
   obtain ⟨l, h1, h2, h3⟩ := (F.proj env σ 0 _ [] 0 hR).ex
   have hlen : stage.length = l.length := by
     have := congrArg List.length h1
     simpa [hstage] using this
-  have hspec : sepMsgs (F.seps (denB env none false p ⟨0, 0⟩ []).f) = PM.Spec.msgs trees := by
+  have hspec : sepMsgs (F.seps (denB env none false p ⟨0, 0, 0⟩ []).f) = PM.Spec.msgs trees := by
     simp only [sepMsgs, PM.Spec.msgs, trees, specOf, List.flatMap_map]
   have hbody : l.map (·.body) = List.range' 0 stage.length := by
     rw [h2, rg.ticks, hlen]
@@ -190,7 +197,11 @@ and the declared serializers applied; this theorem reads them):
 a message holds its `message_type` and, under every other non-structural key, exactly the value
 logged — a typed field its serializer's output (`serOpt σ sers fields`); a start message the fields
 given to `start_action`; a successful end message the success fields added; a failed end message the
-exception's class name and text and nothing else (no success field leaks into it).
+exception's class name and text — eliot's own `exception` / `reason` / `action_status` win over
+extracted fields of the same name —, under every other key exactly the fields `xf` the exception
+extractor returned (in the denotation: `extOf`, the extractor of the nearest class in the MRO;
+nothing if none is registered), and no success field; the `eliot:traceback` message of
+`write_traceback()` its own `reason` / `traceback` / `exception` over the extracted fields.
 Precondition: no typed field is declared under a structural key. -/
 theorem field_values (env : Env) (σ : Nat → FV → FV) (u : Nat) (L : Level) (tick : Nat) :
     (∀ ms : MSpec, sersAvoid ms.sers ["timestamp", "task_uuid", "task_level", "message_type"] →
@@ -199,16 +210,48 @@ theorem field_values (env : Env) (σ : Nat → FV → FV) (u : Nat) (L : Level) 
         (leafDict σ u L tick ms).get? k = (serOpt σ ms.sers ms.fields).get? k) ∧
     (∀ sp : Spec, sersAvoid (sp.sers.map (·.1)) actionKeys → ∀ k, k ∉ actionKeys →
       (startDict σ u L tick sp).get? k = (serOpt σ (sp.sers.map (·.1)) sp.fields).get? k) ∧
-    (∀ atype sers succ, sersAvoid (sers.map (·.2)) actionKeys → ∀ k, k ∉ actionKeys →
-      (endDict env σ u L tick atype sers succ .ok).get? k = (serOpt σ (sers.map (·.2)) succ).get? k) ∧
-    (∀ atype sers succ e,
-      (endDict env σ u L tick atype sers succ (.raised e)).get? "exception" = some (.str (e.qual env)) ∧
-      (endDict env σ u L tick atype sers succ (.raised e)).get? "reason" = some (.str (e.safeStr env)) ∧
+    (∀ atype sers succ xf, sersAvoid (sers.map (·.2)) actionKeys → ∀ k, k ∉ actionKeys →
+      (endDict env σ u L tick atype sers succ xf .ok).get? k = (serOpt σ (sers.map (·.2)) succ).get? k) ∧
+    (∀ atype sers succ xf e,
+      (endDict env σ u L tick atype sers succ xf (.raised e)).get? "exception" = some (.str (e.qual env)) ∧
+      (endDict env σ u L tick atype sers succ xf (.raised e)).get? "reason" = some (.str (e.safeStr env)) ∧
+      (endDict env σ u L tick atype sers succ xf (.raised e)).get? "action_status" = some (.str "failed") ∧
       ∀ k, k ∉ actionKeys → k ≠ "exception" → k ≠ "reason" →
-        (endDict env σ u L tick atype sers succ (.raised e)).get? k = none) :=
+        (endDict env σ u L tick atype sers succ xf (.raised e)).get? k = xf.get? k) ∧
+    (∀ e xf,
+      (tbSpec env e xf).mtype = "eliot:traceback" ∧ (tbSpec env e xf).sers = none ∧
+      (tbSpec env e xf).fields.get? "reason" = some (.str (e.safeStr env)) ∧
+      (tbSpec env e xf).fields.get? "traceback" = some (.tbtext e) ∧
+      (tbSpec env e xf).fields.get? "exception" = some (.str (e.qual env)) ∧
+      ∀ k, k ≠ "reason" → k ≠ "traceback" → k ≠ "exception" → (tbSpec env e xf).fields.get? k = xf.get? k) :=
   ⟨fun ms hs => leafDict_fields σ u L tick ms hs, fun sp hs k hk => startDict_fields σ u L tick sp hs k hk,
-   fun atype sers succ hs k hk => endDict_fields_ok env σ u L tick atype sers succ hs k hk,
-   fun atype sers succ e => endDict_fields_failed env σ u L tick atype sers succ e⟩
+   fun atype sers succ xf hs k hk => endDict_fields_ok env σ u L tick atype sers succ xf hs k hk,
+   fun atype sers succ xf e =>
+     ⟨(endDict_fields_failed env σ u L tick atype sers succ xf e).1, (endDict_fields_failed env σ u L tick atype sers succ xf e).2.1,
+      by simp only [endDict]
+         rw [Sys.C04.Fields.get?_set_ne _ _ _ _ (by decide), Sys.C04.Fields.get?_set_ne _ _ _ _ (by decide), Sys.C04.Fields.get?_set_ne _ _ _ _ (by decide),
+           Sys.C04.Fields.get?_set_ne _ _ _ _ (by decide), Sys.C04.Fields.get?_set_self],
+      (endDict_fields_failed env σ u L tick atype sers succ xf e).2.2⟩,
+   fun e xf => tbSpec_fields env e xf⟩
+
+/-- **extracted_fields** (which extractor).  The fields a failed action's end message and a
+`write_traceback()` message carry (`extOf`, used by the denotation `denB`) are those returned — on
+that call — by the extractor registered for the first class of the exception's MRO that has one;
+classes before it in the MRO have none; with no extractor along the MRO there are no extra fields and
+no extractor call. -/
+theorem extracted_fields (env : Env) (e : Exc) (k : Nat) :
+    (∀ pre c post f fs, env.mro (e.cls env) = pre ++ c :: post → (∀ c' ∈ pre, env.extractor c' = none) →
+      env.extractor c = some f → f e k = .ok fs → extOf env e k = (fs, k + 1)) ∧
+    ((∀ c ∈ env.mro (e.cls env), env.extractor c = none) → extOf env e k = ([], k)) := by
+  refine ⟨fun pre c post f fs hm hpre hc hf => extOf_nearest hm hpre hc k fs hf, fun h => ?_⟩
+  have : ∀ l : List Nat, (∀ c ∈ l, env.extractor c = none) → firstExtractor env l = none := by
+    intro l hl
+    induction l with
+    | nil => rfl
+    | cons c cs ih =>
+      simp only [firstExtractor, hl c List.mem_cons_self]
+      exact ih (fun c' h' => hl c' (List.mem_cons_of_mem _ h'))
+  simp only [extOf, this _ h]
 
 -- a typed message {"k": "v"} with serializer 5 on "k", and an untyped field
 example : (leafDict (fun s v => FV.serOut s 0 v) 3 [2] 9 { mtype := "m", fields := [("k", .str "v"), ("n", .nat 4)], sers := some [("k", 5)] }).get? "k"
@@ -296,8 +339,8 @@ the UTF-8 encoding of the same content; splitting on newlines, `json.loads`-ing 
 every line returns exactly the staged dicts; and parsing their projections — in file order or any
 other order — yields exactly one complete task per performed tree with that whole tree as root. -/
 theorem roundtrip_file {env : Env} {σ : Nat → FV → FV} {ds : List Nat} (H : EnvOK env σ ds) (p : Block)
-    (hs : p.structured false false = true) (hwf : (denB env none false p ⟨0, 0⟩ []).wf = true)
-    (hR : F.clean (denB env none false p ⟨0, 0⟩ []).f = true) (v : JsonView) (ext : Bool)
+    (hs : p.structured false false = true) (hwf : (denB env none false p ⟨0, 0, 0⟩ []).wf = true)
+    (hR : F.clean (denB env none false p ⟨0, 0, 0⟩ []).f = true) (v : JsonView) (ext : Bool)
     (hv : ∀ m ∈ (execB env none {} (.cons (.addDests ds) p)).1.stage, v.Faithful ext m) :
     let stage := (execB env none {} (.cons (.addDests ds) p)).1.stage
     let text := content (fileCalls .text ext (stage.map v.py))
@@ -305,7 +348,7 @@ theorem roundtrip_file {env : Env} {σ : Nat → FV → FV} {ds : List Nat} (H :
     utf8dec (content (fileCalls .binary ext (stage.map v.py))) = some text ∧
     (readLines text).filterMap (v.codec ext).dec = stage ∧
     ∀ ms : List PM.PMsg, ms.Perm (((readLines text).filterMap (v.codec ext).dec).filterMap toPMsg) →
-      ∃ out, PM.parseStream ms = .ok out ∧ Reconstructs (specOf (denB env none false p ⟨0, 0⟩ []).f) out := by
+      ∃ out, PM.parseStream ms = .ok out ∧ Reconstructs (specOf (denB env none false p ⟨0, 0, 0⟩ []).f) out := by
   intro stage text
   have hok : ∀ m ∈ stage, (v.codec ext).OK m := fun m hm => (v.codec_ok ext m (hv m hm)).1
   have htext : text = (stage.map fun m => (v.codec ext).enc m ++ [10]).flatten := by
@@ -339,7 +382,7 @@ def exEnv : Env where
 def exσ : Nat → FV → FV := fun s v => FV.serOut s 0 v
 
 theorem exOK : EnvOK exEnv exσ [1, 2] := by
-  refine ⟨fun _ _ _ => rfl, fun _ => rfl, ?_⟩
+  refine EnvOK.ofNoExtractor (fun _ _ _ => rfl) (fun _ => rfl) ?_
   intro d hd k
   simp only [List.mem_cons, List.not_mem_nil, or_false] at hd
   rcases hd with rfl | rfl <;> simp [exEnv]
@@ -360,18 +403,18 @@ def exProg : Block :=
   .nil))
 
 /-- the hypotheses hold for it -/
-theorem exHyps : exProg.structured false false = true ∧ (denB exEnv none false exProg ⟨0, 0⟩ []).wf = true ∧
-    F.clean (denB exEnv none false exProg ⟨0, 0⟩ []).f = true := by decide +kernel
+theorem exHyps : exProg.structured false false = true ∧ (denB exEnv none false exProg ⟨0, 0, 0⟩ []).wf = true ∧
+    F.clean (denB exEnv none false exProg ⟨0, 0, 0⟩ []).f = true := by decide +kernel
 
 -- 14 messages in 4 trees: uuid 0 (action "a": 8 messages), 1 (the task, 3), 2 (the context-less message), 3 (action "c": 2)
 example : (execB exEnv none {} (.cons (.addDests [1, 2]) exProg)).1.stage.length = 14 ∧
     (execB exEnv none {} (.cons (.addDests [1, 2]) exProg)).2 = .ok ∧
-    (specOf (denB exEnv none false exProg ⟨0, 0⟩ []).f).map (fun e => (e.1, (PM.tmsgs e.1 e.2).length)) =
+    (specOf (denB exEnv none false exProg ⟨0, 0, 0⟩ []).f).map (fun e => (e.1, (PM.tmsgs e.1 e.2).length)) =
       [("u1", 3), ("u0", 8), ("u2", 1), ("u3", 2)] := by decide +kernel
 
 -- the model's stage is what `emitted_is_forest` says, computed
 example : (execB exEnv none {} (.cons (.addDests [1, 2]) exProg)).1.stage =
-    (F.tops (denB exEnv none false exProg ⟨0, 0⟩ []).f).flatMap (fun e => T.top exEnv exσ e.1 e.2) :=
+    (F.tops (denB exEnv none false exProg ⟨0, 0, 0⟩ []).f).flatMap (fun e => T.top exEnv exσ e.1 e.2) :=
   (emitted_is_forest exOK (by decide) exProg exHyps.1 exHyps.2.1).1
 
 -- levels, types and statuses of the staged dicts, in emission order
@@ -398,9 +441,95 @@ example : (PM.parseStream ((execB exEnv none {} (.cons (.addDests [1, 2]) exProg
 
 -- … and (by the theorem) each with the whole performed tree as root
 example : ∃ out, PM.parseStream ((execB exEnv none {} (.cons (.addDests [1, 2]) exProg)).1.stage.filterMap toPMsg).reverse = .ok out ∧
-    Reconstructs (specOf (denB exEnv none false exProg ⟨0, 0⟩ []).f) out := by
+    Reconstructs (specOf (denB exEnv none false exProg ⟨0, 0, 0⟩ []).f) out := by
   obtain ⟨l, h1, _, _, _, hp⟩ := roundtrip (ds := [1, 2]) exOK exProg exHyps.1 exHyps.2.1 exHyps.2.2
   have : (execB exEnv none {} (.cons (.addDests [1, 2]) exProg)).1.stage.filterMap toPMsg = l := by
+    have := congrArg (List.filterMap id) h1
+    simpa [List.filterMap_map, Function.comp_def] using this
+  rw [this]
+  exact hp _ (List.reverse_perm l)
+
+/-! ## Non-vacuity with exception extractors.  Classes: 0 = `Base`, 1 = `Mid(Base)`, 2 = `Leaf(Mid)`,
+3 = unrelated.  An extractor is registered for `Base` (it returns a `code`, the number of the extractor
+call, and a `reason` of its own that must lose against eliot's) and one for `Leaf`; exception `i` has
+class `i`. -/
+def exEnvX : Env where
+  classOf := fun i => i
+  mro := fun c => if c = 2 then [2, 1, 0] else if c = 1 then [1, 0] else [c]
+  qualname := fun c => if c = 0 then "m.Base" else if c = 1 then "m.Mid" else if c = 2 then "m.Leaf" else "m.Other"
+  strOf := fun _ => some "boom"
+  keyErrorClass := 9
+  extractor := fun c =>
+    if c = 0 then some (fun _ k => .ok [("code", .nat 7), ("call", .nat k), ("reason", .str "mine")])
+    else if c = 2 then some (fun _ _ => .ok [("leaf", .nat 1)])
+    else none
+  serialize := fun s v _ => Except.ok (FV.serOut s 0 v)
+  destFails := fun _ _ => none
+
+theorem exOKX : EnvOK exEnvX exσ [1, 2] := by
+  refine ⟨fun _ _ _ => rfl, ?_, fun _ _ _ => rfl⟩
+  intro c f hc e k
+  simp only [exEnvX] at hc
+  split at hc
+  · cases hc; exact ⟨_, rfl⟩
+  · split at hc
+    · cases hc; exact ⟨_, rfl⟩
+    · cases hc
+
+-- the decidable condition on what extractors return (`extClean`: no `action_type` / `action_status`)
+-- holds for every field dict these extractors can return, hence for `extOf`
+example : ∀ e k, extClean (extOf exEnvX e k).1 = true := by
+  refine extOf_clean ?_
+  intro c f hc e k fs hf
+  simp only [exEnvX] at hc
+  split at hc
+  · cases hc; cases hf; rfl
+  · split at hc
+    · cases hc; cases hf; rfl
+    · cases hc
+
+-- nearest class in the MRO: a `Mid` exception gets `Base`'s extractor, a `Leaf` exception its own
+example : extOf exEnvX (.user 1) 5 = ([("code", .nat 7), ("call", .nat 5), ("reason", .str "mine")], 6) ∧
+    extOf exEnvX (.user 2) 5 = ([("leaf", .nat 1)], 6) ∧ extOf exEnvX (.user 3) 5 = ([], 5) := by decide +kernel
+
+/-- an action failing with a `Mid` exception, the handler writes a traceback; an action failing with a
+`Leaf` exception inside an action failing with it too; an action failing with an unrelated exception -/
+def exProgX : Block :=
+  .cons (.tryCatch
+      (.cons (.withAction false { atype := "a" } (.cons (.log { mtype := "m" }) (.cons (.raise 1) .nil))) .nil)
+      (.cons .writeTraceback .nil))
+  (.cons (.tryCatch
+      (.cons (.withAction false { atype := "b" } (.cons (.withAction false { atype := "c" } (.cons (.raise 2) .nil)) .nil)) .nil) .nil)
+  (.cons (.tryCatch (.cons (.withAction false { atype := "d" } (.cons (.raise 3) .nil)) .nil) .nil)
+  .nil))
+
+theorem exHypsX : exProgX.structured false false = true ∧ (denB exEnvX none false exProgX ⟨0, 0, 0⟩ []).wf = true ∧
+    F.clean (denB exEnvX none false exProgX ⟨0, 0, 0⟩ []).f = true := by decide +kernel
+
+-- 10 messages; the failed end of "a" (index 2) carries the extractor's `code` and call number 0, but
+-- eliot's own `reason`; the traceback (index 3) carries them too (second extractor call) under its own
+-- `reason`; the ends of "c" and "b" carry `Leaf`'s field; the end of "d" carries nothing extra
+example : (execB exEnvX none {} (.cons (.addDests [1, 2]) exProgX)).1.stage.length = 10 ∧
+    ((execB exEnvX none {} (.cons (.addDests [1, 2]) exProgX)).1.stage[2]?.bind (·.get? "code")) = some (.nat 7) ∧
+    ((execB exEnvX none {} (.cons (.addDests [1, 2]) exProgX)).1.stage[2]?.bind (·.get? "call")) = some (.nat 0) ∧
+    ((execB exEnvX none {} (.cons (.addDests [1, 2]) exProgX)).1.stage[2]?.bind (·.get? "reason")) = some (.str "boom") ∧
+    ((execB exEnvX none {} (.cons (.addDests [1, 2]) exProgX)).1.stage[2]?.bind (·.get? "exception")) = some (.str "m.Mid") ∧
+    ((execB exEnvX none {} (.cons (.addDests [1, 2]) exProgX)).1.stage[3]?.bind (·.get? "message_type")) = some (.str "eliot:traceback") ∧
+    ((execB exEnvX none {} (.cons (.addDests [1, 2]) exProgX)).1.stage[3]?.bind (·.get? "call")) = some (.nat 1) ∧
+    ((execB exEnvX none {} (.cons (.addDests [1, 2]) exProgX)).1.stage[3]?.bind (·.get? "reason")) = some (.str "boom") ∧
+    ((execB exEnvX none {} (.cons (.addDests [1, 2]) exProgX)).1.stage[6]?.bind (·.get? "leaf")) = some (.nat 1) ∧
+    ((execB exEnvX none {} (.cons (.addDests [1, 2]) exProgX)).1.stage[7]?.bind (·.get? "leaf")) = some (.nat 1) ∧
+    ((execB exEnvX none {} (.cons (.addDests [1, 2]) exProgX)).1.stage[9]?.bind (·.get? "code")) = none := by decide +kernel
+
+-- … and that stage is the denotation's (by the theorem), and parses back to the four performed trees
+example : (execB exEnvX none {} (.cons (.addDests [1, 2]) exProgX)).1.stage =
+    (F.tops (denB exEnvX none false exProgX ⟨0, 0, 0⟩ []).f).flatMap (fun e => T.top exEnvX exσ e.1 e.2) :=
+  (emitted_is_forest exOKX (by decide) exProgX exHypsX.1 exHypsX.2.1).1
+
+example : ∃ out, PM.parseStream ((execB exEnvX none {} (.cons (.addDests [1, 2]) exProgX)).1.stage.filterMap toPMsg).reverse = .ok out ∧
+    Reconstructs (specOf (denB exEnvX none false exProgX ⟨0, 0, 0⟩ []).f) out := by
+  obtain ⟨l, h1, _, _, _, hp⟩ := roundtrip (ds := [1, 2]) exOKX exProgX exHypsX.1 exHypsX.2.1 exHypsX.2.2
+  have : (execB exEnvX none {} (.cons (.addDests [1, 2]) exProgX)).1.stage.filterMap toPMsg = l := by
     have := congrArg (List.filterMap id) h1
     simpa [List.filterMap_map, Function.comp_def] using this
   rw [this]
